@@ -8,6 +8,65 @@ import sys
 COQ = os.path.join(os.path.dirname(os.path.dirname(os.path.abspath(__file__))), "coq")
 
 SPECS = {
+    "C08": {
+        "title": "C08 - The explicit graph exported from a BFS equals the true Schreier graph.",
+        "doc": "Statements about the BFS model with return_all_edges: L i = the true layers (distance classes); edges are pairs of HASHES, which NoColl identifies with states;\n"
+               "    the renumbering / naming layer (Export.v) is tied to the implementation by the correspondence check.",
+        "imports": "Base Tensor Graph GraphProofs GraphImpl Bfs BfsStep BfsProofs BfsEdges",
+        "thms": [
+            ("C08_edges_completed", "bfs_edges_completed", "completed run: the edge list is exactly {(v, g v) | v in the orbit, g a generator}"),
+            ("C08_edges_interrupted_exact", "bfs_edges_interrupted_exact", "interrupted run: exactly the out-edges of the non-final layers plus the reversals of the last expansion"),
+            ("C08_layers_hashes_aligned", "bfs_layers_hashes_aligned", "states and hashes of every stored layer are aligned, so vertex k's hash is the hash of row k"),
+            ("C08_edges_some", "bfs_edges_some", "with edges requested an edge list is always returned"),
+        ],
+    },
+    "C05": {
+        "title": "C05 - Meet-in-the-middle search returns shortest paths within its stated radius.",
+        "doc": "G/Ginv: a graph instance and its inverted copy; U: the states a run touches; ball_ok G c lh: per-layer hash lists of the true layers from c;\n"
+               "    dstar G A B d: d is the least length of a walk from a member of A to a member of B. NoColl = hash injective on U.",
+        "imports": "Base Tensor Graph GraphProofs GraphImpl Def Paths BfsStep PathsProofs Mitm MitmProofs Interactive InteractiveProofs InteractiveBetween",
+        "thms": [
+            ("C05_mitm_to_sound", "mitm_to_sound", "a returned path is valid, its length is the true distance, and that distance is at most 2D"),
+            ("C05_mitm_to_complete", "mitm_to_complete", "whenever the true distance is at most 2D a path is returned"),
+            ("C05_mitm_to_none", "mitm_to_none", "nothing is returned when every distance exceeds 2D (or the target is unreachable)"),
+            ("C05_mitm_to_exact", "mitm_to_exact", "distance d <= 2D: the result is a valid path of exactly d edges"),
+            ("C05_between_sound", "between_sound", "set-to-set: the path starts in the start set, ends in the destination set, has globally minimal length, within twice the depth limit"),
+            ("C05_between_complete", "between_complete", "set-to-set: a path is returned whenever the minimum is at most twice the depth limit (length 0 when the sets intersect)"),
+            ("C05_between_none", "between_none", "set-to-set: nothing otherwise"),
+            ("C05_ibfs_layers", "ibfs_layers", "the step-by-step BFS computes the true layers from ANY start list (unsorted, duplicates, empty)"),
+        ],
+    },
+    "C10": {
+        "title": "C10 - Inverted and inverse-closed definitions are exact group-theoretic inverses.",
+        "doc": "Model: Def.v (inverse map with dict semantics, inverted generators, inverse closure, MatrixGenerator.inv with the float inverse as an oracle candidate).\n"
+               "    MatrixMC.v bridges to MathComp's mulmx1C: in a commutative ring a right inverse of a square matrix is a left inverse.",
+        "imports": "Base W64 Perm PermProofs Matrix Def DefProofs MatrixMC",
+        "thms": [
+            ("C10_inverse_perm_undoes", "inverse_undoes", "the inverse permutation undoes the permutation on every sequence, both ways"),
+            ("C10_inverted_perms_undo", "inverted_perms_undo", "generator i of the inverted definition undoes generator i (permutations)"),
+            ("C10_perm_inverse_map_correct", "perm_inverse_map_correct", "the inverse map sends i to a position holding the inverse of generator i"),
+            ("C10_perm_inverse_map_none", "perm_inverse_map_none", "the map is None (flag false) exactly when some generator has no inverse in the list"),
+            ("C10_inverse_map_undoes", "inverse_map_undoes", "generator i followed by generator map[i] is the identity"),
+            ("C10_mic_perms_spec", "mic_perms_spec", "make_inverse_closed keeps generators, names, order; appends exactly the missing inverses; the result is inverse closed; a closed input is returned unchanged"),
+            ("C10_mic_perms_idempotent", "mic_perms_idempotent", "make_inverse_closed is idempotent"),
+            ("C10_mat_inv_two_sided_mod0", "mat_inv_two_sided_mod0", "MatrixGenerator.inv (modulo 0), for ANY oracle candidate: success means a TWO-sided inverse in int64 arithmetic"),
+            ("C10_mat_inv_two_sided_modular", "mat_inv_two_sided_modular", "the same modulo m"),
+            ("C10_mat_inv_undoes_mod0", "mat_inv_undoes_mod0", "the inverted matrix generator undoes the generator on every state (modulo 0)"),
+            ("C10_mat_inv_undoes_modular", "mat_inv_undoes_modular", "the same modulo m, on reduced states"),
+            ("C10_mat_inv_rejects", "mat_inv_rejects", "a candidate that is not a right inverse is rejected with the library's assertion"),
+        ],
+    },
+    "C12": {
+        "title": "C12 - Automatic path finding returns only valid paths, shortest within its BFS radius.",
+        "doc": "find_path_one (PathRun.v) is the model of cayleypy.find_path for graphs without a pre-trained model: inverse-closed graphs use MITM from the start state\n"
+               "    and revert the path; directed graphs run MITM in the inverted graph and reverse the generator sequence. balls_ok: the cached ball is well formed.",
+        "imports": "Base Tensor Graph GraphProofs GraphImpl Def Paths BfsStep PathsProofs Mitm MitmProofs PathRun MitmFind",
+        "thms": [
+            ("C12_find_path_valid", "find_path_valid", "any returned sequence replays from the start state to the central state (both branches); it is shortest and within twice the ball depth"),
+            ("C12_find_path_shortest", "find_path_shortest", "distance within twice the depth of the internal BFS: a path of exactly that length is returned"),
+            ("C12_find_path_none", "find_path_none", "nothing is returned only when no path of that length exists"),
+        ],
+    },
     "C04": {
         "title": "C04 - Paths restored from a BFS result are valid and shortest.",
         "doc": "G/Ginv: a graph instance and its inverted copy (same hasher); U: the states a run touches; ball_ok G c lh: lh are the strictly sorted\n"
@@ -26,7 +85,7 @@ SPECS = {
 
 
 def closed_type(imports, lemma):
-    src = f"From V Require Import {imports}.\nSet Printing Width 100.\nSet Printing Depth 100000.\nCheck {lemma}.\n"
+    src = f"From V Require Import {imports}.\nSet Printing Width 100.\nSet Printing Depth 100000.\nCheck @{lemma}.\n"
     work = os.path.join(os.path.dirname(COQ), ".work", "mkprops")
     os.makedirs(work, exist_ok=True)
     path = os.path.join(work, "mkprops_tmp.v")
@@ -46,7 +105,7 @@ def main():
         ty = closed_type(spec["imports"], lemma)
         out.append(f"(* {doc} *)")
         out.append(f"Theorem {name} :\n  " + ty.replace("\n", "\n  ") + ".")
-        out.append(f"Proof. exact {lemma}. Qed.")
+        out.append(f"Proof. exact @{lemma}. Qed.")
         out.append(f"Print Assumptions {name}.\n")
     open(os.path.join(COQ, "props", pid + ".v"), "w").write("\n".join(out))
 
